@@ -10,6 +10,8 @@ func All() map[string]core.Prop {
 		"C03": C03{},
 		"C04": C04{},
 		"C05": C05{},
+		"C06": C06{},
+		"C13": C13{},
 		"C15": C15{},
 		"C17": C17{},
 	}
